@@ -105,6 +105,7 @@ def enabled (s : Sys) (e : Event) : Bool :=
   | .send | .close => true
   | .wsOpen => !c.wsOpen && !v.svcStopped
   | .wsClose => c.wsOpen && !c.stopPending
+  | .wsFail => !c.wsOpen && !v.svcStopped          -- a connection attempt whose WebSocket negotiation fails
   | .failInitial => !c.everConnected && !c.wsOpen && !v.svcStopped && !v.initialFailed
   | .svcStopped => c.stopPending
   | .welcome _ => reading && !v.welcomed
@@ -238,6 +239,7 @@ def sysStep (s : Sys) (e : Event) : Sys × Outcome :=
           | .message .theirs _ _ _ _ => .wrongPassword
           | .close => if s.ctl.b = .S2_happy then .happy else .lonely
           | .failInitial => .connectionError
+          | .wsFail => .connectionError
           | _ => .internalError }
     else m2
   let m3 := obs.foldl (monObs s.ctl c' v1) m2
@@ -247,7 +249,7 @@ def sysStep (s : Sys) (e : Event) : Sys × Outcome :=
 def allEvents : List Event :=
   [.setCode true, .setCode false, .allocateCode, .inputCode,
    .hRefresh, .hNameplateCompletions, .hChooseNameplate true, .hChooseNameplate false, .hWordCompletions, .hChooseWords,
-   .send, .close, .wsOpen, .wsClose, .failInitial, .svcStopped,
+   .send, .close, .wsOpen, .wsClose, .wsFail, .failInitial, .svcStopped,
    .welcome false, .welcome true, .claimed, .released, .closedResp, .allocated, .nameplates, .serverError,
    .message .ours .pake true true .good, .message .ours .version true true .good, .message .ours .num true true .good,
    .message .theirs .pake true true .good, .message .theirs .pake true false .good,
